@@ -340,3 +340,43 @@ def validate_trace(name, module, constants, trace_path, invariants=(), timeout=9
     if inv_violated and rejected is None:
         rejected = {"index": res.get("depth"), "event": {"invariant": inv_violated}}
     return res, rejected
+
+
+def simple_check(pid, tier, seed, t0, runs, rule, assume, level="model_checking", nontrivial=None, extra_cov=None,
+                 extra_mismatches=()):
+    """Generic pipeline: each run = dict(name, module, constants, invariants, constraints, simulate, depth, workers).
+    nontrivial(case_dict) -> bool decides which generated cases count as non-trivial (distinct by content)."""
+    results, mism, passc, failc, extra, samples = [], list(extra_mismatches), {}, {}, {}, []
+    ncases = nontriv = 0
+    seen = set()
+    for r in runs:
+        res, n, mm, summ = gen_and_replay("%s_%s" % (pid, r["name"]), r["module"], r["constants"], [pid], seed,
+                                          invariants=r.get("invariants", ()), constraints=r.get("constraints", ()),
+                                          simulate=r.get("simulate"), depth=r.get("depth"), workers=r.get("workers", 12),
+                                          timeout=r.get("timeout", 1500), view=r.get("view"))
+        results.append(res)
+        ncases += n
+        mism += mm
+        merge_counts(passc, summ["pass"]); merge_counts(failc, summ["fail"]); merge_counts(extra, summ["extra"])
+        samples += summ["samples"][:2]
+        with open(res["cases_path"]) as f:
+            for line in f:
+                if nontrivial is None:
+                    h = hash(line)
+                    if h not in seen:
+                        seen.add(h); nontriv += 1
+                else:
+                    c = json.loads(line)
+                    if nontrivial(c):
+                        h = hash(line)
+                        if h not in seen:
+                            seen.add(h); nontriv += 1
+        os.remove(res["cases_path"])
+    cov = {"states": sum(r["distinct"] for r in results), "transitions": sum(r["generated"] for r in results),
+           "traces_validated_against_impl": ncases, "samples": samples[:4],
+           "evaluations": sum(passc.values()) + sum(failc.values()), "distinct_nontrivial": nontriv, "rule": rule,
+           "checks_passed_by_kind": passc, "checks_failed_by_kind": failc, "harness_counters": extra,
+           "tlc_runs": tlc_summary(results)}
+    if extra_cov:
+        cov.update(extra_cov)
+    finish(pid, tier, seed, level, cov, assume, t0, mism)
